@@ -208,7 +208,16 @@ class KDict(Kind):
                                  ('dom_' + self.name, z3.ArraySort(self.key.sort(), z3.BoolSort()))])])
 
     def _dflt(self, d):
-        if self.default is not None:
+        if isinstance(self.default, Kind):
+            # defaultdict(set) / defaultdict(list): a fresh EMPTY container of the declared kind
+            def mk(ip_, k=self.default):
+                if isinstance(k, KSet):
+                    return VSet(empty_array(KBool) if False else z3.K(k.elem.sort(), z3.BoolVal(False)), k.elem)
+                if isinstance(k, KList):
+                    return VList(empty_array(k.elem), z3.IntVal(0), k.elem)
+                raise TypeError('default factory of this kind is not modelled')
+            d.default = mk
+        elif self.default is not None:
             d.default = lambda ip_, py=self.default: VConst(py)
         return d
 
